@@ -38,6 +38,24 @@ def run(ctx: Ctx) -> None:
     # ---- R-C30.0 preconditions
     order_kw = loc.dataclass_kw("order")
     fields = [n for n, _ in loc.own_fields()]
+
+    def _excluded(cls) -> list[str]:
+        # fields declared `= field(..., compare=<not literally True>)` are left out of the generated __eq__/__lt__
+        out = []
+        for n, st in cls.own_fields():
+            v = st.value
+            if isinstance(v, ast.Call) and ast.unparse(v.func).split(".")[-1] == "field":
+                for kw in v.keywords:
+                    if kw.arg == "compare" and not (isinstance(kw.value, ast.Constant) and kw.value.value is True):
+                        out.append(n)
+                    if kw.arg is None:
+                        out.append(n)  # **kwargs: cannot tell
+        return out
+
+    loc_excl, span_excl = _excluded(loc), _excluded(span)
+    # not a violation by itself (a file test in front of every comparison keeps the behaviour): the evaluator below compares
+    # exactly the fields the generated methods compare, so an `==` that has silently become file-blind shows in R-C30.1-3
+    ctx.saw("facts", f"fields excluded from generated comparisons: Loc {loc_excl}, Span {span_excl}")
     ctx.check(
         loc.is_dataclass() and isinstance(order_kw, ast.Constant) and order_kw.value is True
         and fields == ["file", "line", "column"] and not any(m in loc.methods for m in ("__lt__", "__le__", "__gt__", "__ge__", "__eq__")),
@@ -96,6 +114,7 @@ def run(ctx: Ctx) -> None:
 
     kinds = {"Span": "Span", "Loc": "Loc"}
     ev = Evaluator(span.node, kinds)
+    ev.loc_excluded, ev.span_excluded = set(loc_excl), set(span_excl)
     contains = idx.method("Span", "__contains__", "guppylang_internals.span")
     and_ = idx.method("Span", "__and__", "guppylang_internals.span")
     ctx.saw("functions", contains.qualname)
